@@ -138,6 +138,19 @@ pub fn eval(c: &Case, obs: &mut Obs) -> Result<(), String> {
                 "mbi-load-fails"
             };
         }
+        'S' => {
+            if bytes.len() != 16 || (le32(bytes, 4) != 0 && le32(bytes, 4) != 4) {
+                return Err("malformed case".into());
+            }
+            let sum = le32(bytes, 0).wrapping_add(le32(bytes, 4)).wrapping_add(le32(bytes, 8)).wrapping_add(le32(bytes, 12));
+            let big = le32(bytes, 0) as u64 + le32(bytes, 4) as u64 + le32(bytes, 8) as u64 > u32::MAX as u64;
+            class = match (sum == 0, big) {
+                (true, true) => "!basic-header-valid-sum-wraps",
+                (true, false) => "basic-header-decodes",
+                (false, true) => "!basic-header-invalid-sum-wraps",
+                (false, false) => "basic-header-invalid",
+            };
+        }
         'H' => {
             if bytes.len() < 16 || bytes.len() != r8(le32(bytes, 8) as usize).max(16) {
                 return Err("malformed case".into());
@@ -180,7 +193,7 @@ pub fn eval(c: &Case, obs: &mut Obs) -> Result<(), String> {
     let (n0, t0) = &answers[0];
     for (n, t) in &answers[1..] {
         if t != t0 {
-            return Err(format!("{} input: outcome differs between {n0} and {n}: {}", if c.kind == 'M' { "boot-information" } else { "header" }, first_difference(t0, t)));
+            return Err(format!("{} input: outcome differs between {n0} and {n}: {}", match c.kind { 'M' => "boot-information", 'S' => "basic-header", _ => "header" }, first_difference(t0, t)));
         }
     }
     Ok(())
@@ -212,6 +225,24 @@ fn strategy_hdr(_: &Ctx) -> BoxedStrategy<Case> {
         Case { kind: 'H', region: Hex(region) }
     })
     .boxed()
+}
+
+fn strategy_basic(_: &Ctx) -> BoxedStrategy<Case> {
+    (
+        prop_oneof![3 => Just(HDR_MAGIC), 1 => any::<u32>(), 1 => Just(0xFFFF_FFFFu32)],
+        prop_oneof![Just(0u32), Just(4u32)],
+        prop_oneof![2 => any::<u32>(), 1 => 0u32..4096, 1 => (0u32..64).prop_map(|d| 0u32.wrapping_sub(HDR_MAGIC).wrapping_add(d).wrapping_sub(32)), 1 => (0u32..64).prop_map(|d| u32::MAX - d)],
+        prop_oneof![3 => Just(0u32), 1 => Just(1u32), 1 => any::<u32>()],
+    )
+        .prop_map(|(magic, arch, len, delta)| {
+            let mut v = vec![0u8; 16];
+            put32(&mut v, 0, magic);
+            put32(&mut v, 4, arch);
+            put32(&mut v, 8, len);
+            put32(&mut v, 12, model_checksum(magic, arch, len).wrapping_add(delta));
+            Case { kind: 'S', region: Hex(v) }
+        })
+        .boxed()
 }
 
 fn enumerate_small(_: &Ctx) -> Box<dyn Iterator<Item = Case>> {
@@ -251,6 +282,17 @@ pub fn subs() -> Vec<Box<dyn Sub>> {
             thorough: 200000,
             strategy: strategy_mbi,
             enumerate: Some(enumerate_small),
+            enum_exhaustive: false,
+            eval,
+        }),
+        Box::new(PropSub::<Case> {
+            name: "basic-header",
+            rule: "16-byte basic headers (magic correct/random/all-ones, both architectures, lengths random / small / around the value where magic+arch+length exceeds 2^32 / near 2^32-1, checksum correct, off by one or random) viewed as Multiboot2BasicHeader in the four servers: four accessors, verify_checksum(), calc_checksum() - no memory behind the header is needed, so lengths up to 2^32-1 are covered. Same differential oracle. Non-trivial = the three words sum to more than 2^32, or the header is valid; distinct by the 16 bytes",
+            profiles: Profiles::ReleaseOnly,
+            quick: 3000,
+            thorough: 100000,
+            strategy: strategy_basic,
+            enumerate: None,
             enum_exhaustive: false,
             eval,
         }),
